@@ -108,6 +108,13 @@ CHECKS = {
     note='Speed uses the library\'s get_distance (decided by C10). Open findings are matched by exact signature (clause + family + cause '
          'computed from the result text); anything else is reported.',
     ref='DESIGN.md §4 C12'),
+ 'C16': dict(
+    technique='schedule enumeration under a harness-owned deterministic scheduler (sys.settrace line-level pre-emption): all single pre-emptions, exhaustive/drawn double pre-emptions, Hypothesis-drawn schedules; differential against the single-threaded result',
+    text='25 scenarios of 2-3 concurrent calls on shared module state, cold and warm; real threads are serialised by a token and pre-empted only at athlib '
+         'source lines chosen by the generator; every thread\'s outcome must equal the same call run alone from the same initial state.',
+    note='Line granularity inside athlib only, at most two forced pre-emptions (three drawn); library locks are wrapped in cooperative proxies so a blocked '
+         'acquire hands the token on (a 50 ms watchdog is the fallback). No wall-clock correctness signal.',
+    ref='DESIGN.md §4 C16'),
  'C17': dict(
     technique='complete enumeration of the finite core + Hypothesis-generated labels and codes; validity predicate and monotonicity oracle',
     text='5 throws x genders x every label calc_uka_age_group produces (obtained by calling it) and the table labels, enumerated completely; '
